@@ -180,6 +180,9 @@ EvFinal ==
                   \cup Flag("C01_FailedAreBounced", \A i \in Q.acc : Q.sender[i] = 1 =>
                             \A p \in Q.failed[i] : \E g \in (IF T.cfg.factory_none THEN Q.made[i] ELSE Q.enq[i]) : p \in g[2])
                   \cup Flag("C01_NothingLeftBehind", Q.stored = {})
+                  \* (nothing is parked, no timer is armed, nothing can move any more: a live stored message is neither in flight
+                  \*  nor scheduled - whatever a full pool excused at the quiescent points before)
+                  \cup Flag("C12_Known", \A i \in Ids : ~(Live(i) /\ i \in Q.stored))
                   \cup Flag("C13_OnePerGroup", \A i \in Ids : IF T.cfg.factory_none THEN Q.made[i] = Q.exp[i] /\ Q.enq[i] = {}
                                                                  ELSE Q.made[i] = Q.exp[i] /\ Q.enq[i] = Q.exp[i])
              ELSE {})
